@@ -58,7 +58,7 @@ pub fn checks(tier: Tier) -> Vec<Check> {
     vec![Check {
         name: "C14.erasure".into(),
         strategy: strategy(backends, if tier == Tier::Quick { 40 } else { 300 }),
-        cases: tier.scale(600, 30),
+        cases: tier.scale(3_000, 20),
         exec: Box::new(crate::ops::exec),
         oracle: Box::new(crate::mops::memory::oracle),
         classify: Box::new(classify),
